@@ -1085,7 +1085,6 @@ package fpgo
 //@   requires q != nil && !untyped(q.stack)
 //@   ensures result-passed-through: r0 == _delegated0 && r1 == _delegated1
 
-
 // ===================================================================================================
 // C05 - set algebra on slices / maps; generic functions and their interface{} twins share ONE contract text
 // (the "twin" lines below), so both bodies are verified against the same characterisation of the result.
